@@ -217,9 +217,9 @@ theorem parseMlsxLine_total (l : Str) : ∃ r, parseMlsxLine l = .ok r := by
   · exact ⟨_, rfl⟩
   · split
     · exact ⟨_, rfl⟩
-    · obtain ⟨n, hn⟩ := mlsdSize_ok (parseFacts (strip l)).2
-      obtain ⟨m, hm⟩ := mlsdTime_ok (parseFacts (strip l)).2 kModify
-      obtain ⟨c, hc⟩ := mlsdTime_ok (parseFacts (strip l)).2 kCreate
+    · obtain ⟨n, hn⟩ := mlsdSize_ok (parseFacts (dropLeadSpace (rstripEol l))).2
+      obtain ⟨m, hm⟩ := mlsdTime_ok (parseFacts (dropLeadSpace (rstripEol l))).2 kModify
+      obtain ⟨c, hc⟩ := mlsdTime_ok (parseFacts (dropLeadSpace (rstripEol l))).2 kCreate
       rw [hn, hm, hc]
       exact ⟨_, rfl⟩
 
@@ -715,42 +715,89 @@ theorem ftp_time_roundtrip_core (y m d h mi s : Nat) (frac : Str)
   congr 2
   omega
 
-theorem splitOn_render (facts : List (Str × Str)) (name : Str) (hf : ∀ kv ∈ facts, WFFact kv)
-    (hn : ';' ∉ name) :
-    splitOn ';' (renderMlsd facts name) = facts.map factStr ++ [' ' :: name] := by
-  unfold renderMlsd
+/-- the facts part of a rendered line: `k1=v1;k2=v2;…;` -/
+def factsText (facts : List (Str × Str)) : Str :=
+  facts.flatMap (fun kv => kv.1 ++ '=' :: kv.2 ++ [';'])
+
+theorem renderMlsd_eq (facts : List (Str × Str)) (name : Str) :
+    renderMlsd facts name = factsText facts ++ ' ' :: name := rfl
+
+theorem factsText_cons (kv : Str × Str) (rest : List (Str × Str)) :
+    factsText (kv :: rest) = factStr kv ++ ';' :: factsText rest := by
+  simp [factsText, factStr, List.append_assoc]
+
+theorem factsText_no_space (facts : List (Str × Str)) (hf : ∀ kv ∈ facts, WFFact kv) :
+    ' ' ∉ factsText facts := by
   induction facts with
-  | nil =>
-    simp only [List.flatMap_nil, List.nil_append, List.map_nil]
-    exact PathLemmas.splitOn_of_not_mem ';' _ (by simp only [List.mem_cons, not_or]; exact ⟨by decide, hn⟩)
+  | nil => simp [factsText]
   | cons kv rest ih =>
     have hw := hf kv (by simp)
-    simp only [List.flatMap_cons, List.map_cons, List.cons_append]
-    have : kv.1 ++ '=' :: kv.2 ++ [';'] ++ List.flatMap (fun kv => kv.1 ++ '=' :: kv.2 ++ [';']) rest ++ ' ' :: name
-        = factStr kv ++ ';' :: (List.flatMap (fun kv => kv.1 ++ '=' :: kv.2 ++ [';']) rest ++ ' ' :: name) := by
-      simp [factStr, List.append_assoc]
-    rw [this, PathLemmas.splitOn_append_sep ';' _ _ (by
+    rw [factsText_cons]
+    unfold factStr
+    simp only [List.mem_append, List.mem_cons, not_or]
+    exact ⟨⟨hw.k_sp, by decide, hw.v_sp⟩, by decide, ih (fun kv' h => hf kv' (by simp [h]))⟩
+
+theorem factsText_ends (facts : List (Str × Str)) (hne : facts ≠ []) :
+    ∃ a, factsText facts = a ++ [';'] := by
+  induction facts with
+  | nil => exact absurd rfl hne
+  | cons kv rest ih =>
+    rw [factsText_cons]
+    cases rest with
+    | nil => exact ⟨factStr kv, by simp [factsText]⟩
+    | cons kv' rest' =>
+      obtain ⟨a, ha⟩ := ih (by simp)
+      exact ⟨factStr kv ++ ';' :: a, by rw [ha]; simp⟩
+
+theorem endsWithSemi_snoc (a : Str) : endsWithSemi (a ++ [';']) = true := by
+  simp [endsWithSemi]
+
+/-- a rendered line always has a facts part (possibly the empty one) -/
+theorem noFactsPart_render (facts : List (Str × Str)) (name : Str) (hf : ∀ kv ∈ facts, WFFact kv) :
+    noFactsPart (renderMlsd facts name) = false := by
+  unfold noFactsPart
+  rw [renderMlsd_eq, partition_append_sep _ _ _ (factsText_no_space facts hf)]
+  simp only [Bool.not_true, Bool.false_or, Bool.and_eq_false_imp, Bool.not_eq_eq_eq_not,
+    Bool.not_true, Bool.not_false]
+  cases facts with
+  | nil => simp [factsText]
+  | cons kv rest =>
+    obtain ⟨a, ha⟩ := factsText_ends (kv :: rest) (by simp)
+    intro _
+    rw [ha, endsWithSemi_snoc]
+
+theorem splitOn_factsText (facts : List (Str × Str)) (hf : ∀ kv ∈ facts, WFFact kv) :
+    splitOn ';' (factsText facts) = facts.map factStr ++ [[]] := by
+  induction facts with
+  | nil => rfl
+  | cons kv rest ih =>
+    have hw := hf kv (by simp)
+    rw [factsText_cons, PathLemmas.splitOn_append_sep ';' _ _ (by
       unfold factStr; simp only [List.mem_append, List.mem_cons, not_or]
       exact ⟨hw.k_semi, by decide, hw.v_semi⟩)]
     rw [ih (fun kv' h => hf kv' (by simp [h]))]
+    simp
 
-theorem factStep_fact (st : Option Str × List (Str × Str)) (kv : Str × Str) (hw : WFFact kv) :
-    factStep st (factStr kv) = (st.1, dictSet (lower kv.1) kv.2 st.2) := by
+theorem factStep_fact (d : List (Str × Str)) (kv : Str × Str) (hw : WFFact kv) :
+    factStep d (factStr kv) = dictSet (lower kv.1) kv.2 d := by
   unfold factStep factStr
   simp only
   rw [partition_append_sep _ _ _ hw.k_eq]
   simp only [if_true, strip_stripped _ hw.k_strip, strip_stripped _ hw.v_strip]
 
-theorem foldl_factStep (facts : List (Str × Str)) (st : Option Str × List (Str × Str))
+theorem factStep_nil (d : List (Str × Str)) : factStep d [] = d := by
+  simp [factStep, partition]
+
+theorem foldl_factStep (facts : List (Str × Str)) (d : List (Str × Str))
     (hf : ∀ kv ∈ facts, WFFact kv)
-    (hnd : ((st.2.map Prod.fst) ++ facts.map (fun kv => lower kv.1)).Nodup) :
-    (facts.map factStr).foldl factStep st = (st.1, st.2 ++ facts.map (fun kv => (lower kv.1, kv.2))) := by
-  induction facts generalizing st with
+    (hnd : ((d.map Prod.fst) ++ facts.map (fun kv => lower kv.1)).Nodup) :
+    (facts.map factStr).foldl factStep d = d ++ facts.map (fun kv => (lower kv.1, kv.2)) := by
+  induction facts generalizing d with
   | nil => simp
   | cons kv rest ih =>
     simp only [List.map_cons, List.foldl_cons]
-    rw [factStep_fact st kv (hf kv (by simp))]
-    have hnew : lower kv.1 ∉ st.2.map Prod.fst := by
+    rw [factStep_fact d kv (hf kv (by simp))]
+    have hnew : lower kv.1 ∉ d.map Prod.fst := by
       have := (List.nodup_append.1 hnd).2.2
       intro hm
       exact this _ hm _ (by simp) rfl
@@ -761,55 +808,229 @@ theorem foldl_factStep (facts : List (Str × Str)) (st : Option Str × List (Str
       simpa using hnd)]
     simp
 
-theorem factStep_name (st : Option Str × List (Str × Str)) (name : Str) (hn : WFName name) :
-    factStep st (' ' :: name) = (some name, st.2) := by
-  unfold factStep
+/-- a name without `/`, not empty, not `.` / `..` is its own `pathName` -/
+theorem pathName_wf (name : Str) (hn : WFName name) : pathName name = some name := by
+  unfold pathName
+  have h1 : name ≠ ['/'] := fun h => hn.slash (by rw [h]; simp)
+  have hb : basename (rstripSlash name) = name := by
+    rw [PathLemmas.rstripSlash_of_not_ends _ (PathLemmas.endsWithSlash_of_not_mem _ hn.slash)]
+    unfold basename split
+    rw [PathLemmas.rsplit1_none _ _ hn.slash]
+  simp only [h1, hn.ne, or_self, if_false, hb, Option.some.injEq, hn.dot, hn.dotdot]
+
+theorem rsplit1_go_spec (c : Char) (xs acc : Str) (hacc : c ∉ acc) :
+    match rsplit1.go c xs acc with
+    | none => c ∉ xs
+    | some ht => c ∉ ht.2 ∧ ht.2.length ≤ xs.length + acc.length := by
+  induction xs generalizing acc with
+  | nil => simp [rsplit1.go]
+  | cons x xs ih =>
+    by_cases hx : x = c
+    · simp [rsplit1.go, hx, hacc]
+    · have hacc' : c ∉ x :: acc := by
+        simp only [List.mem_cons, not_or]; exact ⟨fun e => hx e.symm, hacc⟩
+      have := ih (x :: acc) hacc'
+      simp only [rsplit1.go, hx, if_false]
+      split
+      · rename_i hnone; rw [hnone] at this
+        simp only [List.mem_cons, not_or]; exact ⟨fun e => hx e.symm, this⟩
+      · rename_i ht hsome; rw [hsome] at this
+        refine ⟨this.1, ?_⟩
+        have := this.2
+        simp only [List.length_cons] at this ⊢
+        omega
+
+/-- `basename` is what follows the last `/`: it contains none -/
+theorem basename_no_slash (s : Str) : '/' ∉ basename s := by
+  have h := rsplit1_go_spec '/' s.reverse [] (by simp)
+  unfold basename split rsplit1
+  split
+  · rename_i hnone
+    rw [hnone] at h
+    simpa using h
+  · rename_i hd tl hsome
+    rw [hsome] at h
+    exact h.1
+
+theorem basename_length_le (s : Str) : (basename s).length ≤ s.length := by
+  have h := rsplit1_go_spec '/' s.reverse [] (by simp)
+  unfold basename split rsplit1
+  split
+  · exact Nat.le_refl _
+  · rename_i hd tl hsome
+    rw [hsome] at h
+    simpa using h.2
+
+theorem lstripSlash_length_le (s : Str) : (lstripSlash s).length ≤ s.length := by
+  induction s with
+  | nil => exact Nat.le_refl _
+  | cons c cs ih =>
+    unfold lstripSlash
+    split
+    · simp only [List.length_cons]; omega
+    · exact Nat.le_refl _
+
+theorem rstripSlash_length_le (s : Str) : (rstripSlash s).length ≤ s.length := by
+  unfold rstripSlash
+  have := lstripSlash_length_le s.reverse
+  simpa using this
+
+theorem rstripEol_length_le (s : Str) : (rstripEol s).length ≤ s.length := by
+  unfold rstripEol
+  have := (List.dropWhile_suffix (l := s.reverse) isEol).length_le
+  simpa using this
+
+/-- `rstrip("\r\n")` leaves exactly the texts that do not end with CR / LF alone -/
+theorem noEol_of_rstripEol (s : Str) (h : (rstripEol s).length = s.length) : NoEol s := by
+  unfold rstripEol at h
+  simp only [List.length_reverse] at h
+  intro c r hcr
+  have hl : s.length = r.length + 1 := by
+    have := congrArg List.length hcr
+    simpa using this
+  rw [hcr] at h
+  cases hc : isEol c with
+  | false => rfl
+  | true =>
+    exfalso
+    simp only [List.dropWhile, hc] at h
+    have := (List.dropWhile_suffix (l := r) isEol).length_le
+    omega
+
+/-- whenever an entry has a name, it is the last component of the pathname without its trailing
+    slashes — nothing else is done to it -/
+theorem pathName_some (p n : Str) (h : pathName p = some n) : n = basename (rstripSlash p) := by
+  unfold pathName at h
+  by_cases h1 : p = [] ∨ p = ['/']
+  · simp [h1] at h
+  · by_cases hb : basename (rstripSlash p) = []
+    · simp [h1, hb] at h
+    · simp only [h1, hb, if_false] at h
+      split at h
+      · cases h
+      · exact (Option.some.inj h).symm
+
+/-- **exactness of `WFName`**: a pathname comes back as the name, unchanged, iff it is `WFName` -/
+theorem pathName_self_iff (name : Str) : pathName name = some name ↔ WFName name := by
+  constructor
+  · intro h
+    have hb := pathName_some _ _ h
+    have hsl : '/' ∉ name := by rw [hb]; exact basename_no_slash _
+    refine ⟨?_, hsl, ?_, ?_⟩
+    · intro e; subst e; exact absurd h (by decide)
+    · intro e; subst e; exact absurd h (by decide)
+    · intro e; subst e; exact absurd h (by decide)
+  · exact pathName_wf name
+
+/-- **`_parse_facts` on any rendered line**: the facts come back, and the name is `pathName` of
+    *everything* behind the first space -/
+theorem parseFacts_render_any (facts : List (Str × Str)) (name : Str) (hf : ∀ kv ∈ facts, WFFact kv)
+    (hnd : (facts.map (fun kv => lower kv.1)).Nodup) :
+    parseFacts (renderMlsd facts name) = (pathName name, facts.map (fun kv => (lower kv.1, kv.2))) := by
+  unfold parseFacts
+  simp only [noFactsPart_render facts name hf, Bool.false_eq_true, if_false]
+  rw [renderMlsd_eq, partition_append_sep _ _ _ (factsText_no_space facts hf)]
   simp only
-  have hne : '=' ∉ ' ' :: name := by simp only [List.mem_cons, not_or]; exact ⟨by decide, hn.eq⟩
-  rw [partition_not_mem _ _ hne]
-  simp only [Bool.false_eq_true, if_false]
-  have hsl : '/' ∉ ' ' :: name := by simp only [List.mem_cons, not_or]; exact ⟨by decide, hn.slash⟩
-  rw [PathLemmas.rstripSlash_of_not_ends _ (PathLemmas.endsWithSlash_of_not_mem _ hsl),
-    strip_space_cons _ hn.strip]
-  unfold basename split
-  rw [PathLemmas.rsplit1_none _ _ hn.slash]
+  rw [splitOn_factsText facts hf, List.foldl_append, foldl_factStep facts [] hf (by simpa using hnd)]
+  simp [factStep_nil]
 
 theorem parseFacts_render (facts : List (Str × Str)) (name : Str) (hf : ∀ kv ∈ facts, WFFact kv)
     (hn : WFName name) (hnd : (facts.map (fun kv => lower kv.1)).Nodup) :
     parseFacts (renderMlsd facts name) = (some name, facts.map (fun kv => (lower kv.1, kv.2))) := by
-  have hr : (splitOn ';' (renderMlsd facts name)).foldl factStep (none, [])
-      = (some name, facts.map (fun kv => (lower kv.1, kv.2))) := by
-    rw [splitOn_render facts name hf hn.semi, List.foldl_append,
-      foldl_factStep facts _ hf (by simpa using hnd)]
-    simp only [List.foldl_cons, List.foldl_nil, List.nil_append]
-    rw [factStep_name _ name hn]
-  unfold parseFacts
-  simp only [hr]
-  simp [hn.dot, hn.dotdot]
+  rw [parseFacts_render_any facts name hf hnd, pathName_wf name hn]
 
-theorem strip_render (facts : List (Str × Str)) (name : Str) (hf : ∀ kv ∈ facts, WFFact kv)
-    (hne : facts ≠ []) (hn : WFName name) : strip (renderMlsd facts name) = renderMlsd facts name := by
-  apply strip_eq_self
-  · -- first character
-    cases facts with
-    | nil => exact absurd rfl hne
-    | cons kv rest =>
-      have hw := hf kv (by simp)
-      unfold renderMlsd
-      simp only [List.flatMap_cons]
-      cases hk : kv.1 with
-      | nil => simp only [List.nil_append, List.cons_append]; exact stops_cons _ _ _ (by decide)
-      | cons c r =>
-        simp only [List.cons_append]
-        exact stops_cons _ _ _ (hw.k_strip.1 c r hk)
-  · -- last character
-    unfold renderMlsd
-    simp only [List.reverse_append, List.reverse_cons]
-    cases hr : name.reverse with
-    | nil => simp at hr; exact absurd hr hn.ne
+/-- a text without a facts part is a pathname -/
+theorem parseFacts_noFacts (l : Str) (h : noFactsPart l = true) : parseFacts l = (pathName l, []) := by
+  unfold parseFacts
+  simp only [h, if_true]
+  simp [splitOn, factStep_nil]
+
+theorem dropWhile_append_cons (p : Char → Bool) (a : Str) (x : Char) (r : Str) (hx : p x = false) :
+    (a ++ x :: r).dropWhile p = a.dropWhile p ++ x :: r := by
+  induction a with
+  | nil => simp [List.dropWhile, hx]
+  | cons c cs ih =>
+    by_cases hc : p c = true
+    · simp [List.dropWhile, hc, ih]
+    · simp [List.dropWhile, hc]
+
+theorem rstripEol_append_space (a n : Str) : rstripEol (a ++ ' ' :: n) = a ++ ' ' :: rstripEol n := by
+  unfold rstripEol
+  simp only [List.reverse_append, List.reverse_cons, List.append_assoc, List.singleton_append]
+  rw [dropWhile_append_cons isEol n.reverse ' ' a.reverse (by decide)]
+  simp
+
+theorem rstripEol_render (facts : List (Str × Str)) (name : Str) :
+    rstripEol (renderMlsd facts name) = renderMlsd facts (rstripEol name) := by
+  rw [renderMlsd_eq, renderMlsd_eq, rstripEol_append_space]
+
+theorem rstripEol_noEol (s : Str) (h : NoEol s) : rstripEol s = s := by
+  unfold rstripEol
+  have e : s.reverse.dropWhile isEol = s.reverse := by
+    cases hr : s.reverse with
+    | nil => rfl
+    | cons c r => exact dropWhile_head_false _ c r (h c r hr)
+  rw [e, List.reverse_reverse]
+
+theorem dropLeadSpace_cons_ne (c : Char) (r : Str) (h : c ≠ ' ') : dropLeadSpace (c :: r) = c :: r := by
+  unfold dropLeadSpace
+  split
+  · rename_i heq; cases heq; exact absurd rfl h
+  · rfl
+
+theorem dropLeadSpace_of_stops (l : Str) (h : Stops (fun c => c == ' ') l) : dropLeadSpace l = l := by
+  cases l with
+  | nil => rfl
+  | cons c r =>
+    apply dropLeadSpace_cons_ne
+    intro e
+    have := h c r rfl
+    simp [e] at this
+
+/-- a rendered line with at least one fact does not start with a space -/
+theorem render_head (facts : List (Str × Str)) (name : Str) (hf : ∀ kv ∈ facts, WFFact kv)
+    (hne : facts ≠ []) : Stops (fun c => c == ' ') (renderMlsd facts name) := by
+  cases facts with
+  | nil => exact absurd rfl hne
+  | cons kv rest =>
+    have hw := hf kv (by simp)
+    rw [renderMlsd_eq, factsText_cons]
+    unfold factStr
+    cases hk : kv.1 with
+    | nil => simp only [List.nil_append, List.cons_append]; exact stops_cons _ _ _ (by decide)
     | cons c r =>
-      simp only [List.cons_append, List.nil_append, List.append_assoc]
-      exact stops_cons _ _ _ (hn.strip.2 c r hr)
+      simp only [List.cons_append]
+      apply stops_cons
+      have : c ≠ ' ' := by
+        intro e; apply hw.k_sp; rw [hk, e]; simp
+      simpa using this
+
+/-- what `_parse_mlsx` hands to `_parse_facts` for a rendered line, and what comes back -/
+theorem parseFacts_line (facts : List (Str × Str)) (name : Str) (hf : ∀ kv ∈ facts, WFFact kv)
+    (hne : facts ≠ []) (hnd : (facts.map (fun kv => lower kv.1)).Nodup) :
+    parseFacts (dropLeadSpace (rstripEol (renderMlsd facts name))) =
+      (pathName (rstripEol name), facts.map (fun kv => (lower kv.1, kv.2))) := by
+  rw [rstripEol_render, dropLeadSpace_of_stops _ (render_head facts _ hf hne),
+    parseFacts_render_any facts _ hf hnd]
+
+/-- the MLST reply form (one leading space) reads like the MLSD form -/
+theorem parseMlsxLine_lead_space (l : Str) (h : Stops (fun c => c == ' ') l) :
+    parseMlsxLine (' ' :: l) = parseMlsxLine l := by
+  have e1 : rstripEol (' ' :: l) = ' ' :: rstripEol l := rstripEol_append_space [] l
+  have e2 : dropLeadSpace (rstripEol l) = rstripEol l := by
+    apply dropLeadSpace_of_stops
+    unfold rstripEol
+    intro c r hcr
+    -- the first character of a prefix of `l` is the first character of `l`
+    have hpre : (l.reverse.dropWhile isEol).reverse <+: l := by
+      have := List.dropWhile_suffix (l := l.reverse) isEol
+      simpa using List.reverse_prefix.2 this
+    rw [hcr] at hpre
+    obtain ⟨t, ht⟩ := hpre
+    exact h c (r ++ t) (by rw [← ht]; simp)
+  unfold parseMlsxLine
+  rw [e1, e2]
+  rfl
 
 theorem mlsdSize_digits (F : List (Str × Str)) (sz : Str)
     (hsz : (dictGet kSize F).getD ((dictGet kSizd F).getD ['0']) = sz)
@@ -837,7 +1058,7 @@ theorem mlsdTime_stamp (F : List (Str × Str)) (k : Str) (y m d h mi s : Nat) (f
   rw [ftp_time_roundtrip_core y m d h mi s frac hy hm hd hh hmi hs]
 
 theorem mlsd_roundtrip_core (facts : List (Str × Str)) (name : Str)
-    (hf : ∀ kv ∈ facts, WFFact kv) (hne : facts ≠ []) (hn : WFName name)
+    (hf : ∀ kv ∈ facts, WFFact kv) (hne : facts ≠ []) (hn : WFName name) (heol : NoEol name)
     (hnd : (facts.map (fun kv => lower kv.1)).Nodup)
     (ty : Str) (hty : (dictGet kType (facts.map (fun kv => (lower kv.1, kv.2)))).getD kFile = ty)
     (htyok : ty = kDir ∨ ty = kFile)
@@ -848,23 +1069,98 @@ theorem mlsd_roundtrip_core (facts : List (Str × Str)) (name : Str)
     parseMlsxLine (renderMlsd facts name) =
       .ok (some ⟨name, ty = kDir, facts.map (fun kv => (lower kv.1, kv.2)), sz, mo, cr⟩) := by
   unfold parseMlsxLine
-  simp only [strip_render facts name hf hne hn, parseFacts_render facts name hf hn hnd, hty, hsz, hmo, hcr]
+  simp only [parseFacts_line facts name hf hne hnd, rstripEol_noEol name heol, pathName_wf name hn,
+    hty, hsz, hmo, hcr]
   have : ¬ (ty ≠ kDir ∧ ty ≠ kFile) := by
     rcases htyok with h | h <;> simp [h]
   rw [if_neg this]
 
-/-- a line whose type is neither `dir` nor `file` (cdir, pdir, OS.unix=slink…) is skipped -/
+/-- a line whose type is neither `dir` nor `file` (cdir, pdir, OS.unix=slink…) is skipped, whatever
+    its name -/
 theorem mlsd_other_skipped (facts : List (Str × Str)) (name : Str)
-    (hf : ∀ kv ∈ facts, WFFact kv) (hne : facts ≠ []) (hn : WFName name)
+    (hf : ∀ kv ∈ facts, WFFact kv)
     (hnd : (facts.map (fun kv => lower kv.1)).Nodup)
     (ty : Str) (hty : dictGet kType (facts.map (fun kv => (lower kv.1, kv.2))) = some ty)
     (h1 : ty ≠ kDir) (h2 : ty ≠ kFile) :
     parseMlsxLine (renderMlsd facts name) = .ok none := by
+  have hne : facts ≠ [] := by intro e; subst e; simp [dictGet] at hty
   unfold parseMlsxLine
-  simp only [strip_render facts name hf hne hn, parseFacts_render facts name hf hn hnd, hty,
-    Option.getD_some]
-  rw [if_pos ⟨h1, h2⟩]
+  simp only [parseFacts_line facts name hf hne hnd]
+  cases pathName (rstripEol name) with
+  | none => rfl
+  | some n =>
+    simp only [hty, Option.getD_some]
+    rw [if_pos ⟨h1, h2⟩]
 
+/-- the name of a listed entry is the last component of the text behind `facts; SP`, minus the
+    line terminator and trailing slashes — and nothing else; its facts are the line's facts -/
+theorem mlsd_name_core (facts : List (Str × Str)) (name : Str)
+    (hf : ∀ kv ∈ facts, WFFact kv) (hne : facts ≠ [])
+    (hnd : (facts.map (fun kv => lower kv.1)).Nodup)
+    (info : MlsdInfo) (h : parseMlsxLine (renderMlsd facts name) = .ok (some info)) :
+    pathName (rstripEol name) = some info.name ∧
+      info.facts = facts.map (fun kv => (lower kv.1, kv.2)) := by
+  unfold parseMlsxLine at h
+  simp only [parseFacts_line facts name hf hne hnd] at h
+  cases hp : pathName (rstripEol name) with
+  | none => rw [hp] at h; cases h
+  | some n =>
+    rw [hp] at h
+    simp only at h
+    split at h
+    · cases h
+    · split at h
+      · cases h
+      · split at h
+        · cases h
+        · split at h
+          · cases h
+          · simp only [Res.ok.injEq, Option.some.injEq] at h
+            subst h
+            exact ⟨rfl, rfl⟩
+
+/-- **exactness**: an entry comes back under the very name the line states only if that name is
+    `WFName` and does not end with CR / LF -/
+theorem mlsd_name_exact_core (facts : List (Str × Str)) (name : Str)
+    (hf : ∀ kv ∈ facts, WFFact kv) (hne : facts ≠ [])
+    (hnd : (facts.map (fun kv => lower kv.1)).Nodup)
+    (info : MlsdInfo) (h : parseMlsxLine (renderMlsd facts name) = .ok (some info))
+    (hname : info.name = name) : WFName name ∧ NoEol name := by
+  have hp := (mlsd_name_core facts name hf hne hnd info h).1
+  rw [hname] at hp
+  have hb := pathName_some _ _ hp
+  have h1 := basename_length_le (rstripSlash (rstripEol name))
+  have h2 := rstripSlash_length_le (rstripEol name)
+  have h3 := rstripEol_length_le name
+  have hlen : (rstripEol name).length = name.length := by
+    have : name.length = (basename (rstripSlash (rstripEol name))).length := congrArg List.length hb
+    omega
+  have heol := noEol_of_rstripEol name hlen
+  rw [rstripEol_noEol name heol] at hp
+  exact ⟨(pathName_self_iff name).1 hp, heol⟩
+
+/-- a line without facts: ` name` (or just `name`) is a file of that name -/
+theorem mlsd_nofacts_core (name : Str) (hn : WFName name) (heol : NoEol name)
+    (hnf : noFactsPart name = true) :
+    parseMlsxLine (' ' :: name) = .ok (some ⟨name, false, [], 0, none, none⟩) ∧
+    parseMlsxLine name = .ok (some ⟨name, false, [], 0, none, none⟩) := by
+  have hst : Stops (fun c => c == ' ') name := by
+    intro c r hcr
+    subst hcr
+    by_cases hc : c = ' '
+    · subst hc; simp [noFactsPart, partition] at hnf
+    · simpa using hc
+  have h2 : parseMlsxLine name = .ok (some ⟨name, false, [], 0, none, none⟩) := by
+    unfold parseMlsxLine
+    simp only [rstripEol_noEol name heol, dropLeadSpace_of_stops name hst, parseFacts_noFacts name hnf,
+      pathName_wf name hn]
+    have hty : ¬ ((dictGet kType []).getD kFile ≠ kDir ∧ (dictGet kType []).getD kFile ≠ kFile) := by decide
+    have hs : mlsdSize [] = .ok 0 := by decide
+    have hm : ∀ k, mlsdTime [] k = .ok none := fun _ => rfl
+    rw [if_neg hty]
+    simp only [hs, hm]
+    rfl
+  exact ⟨by rw [parseMlsxLine_lead_space name hst]; exact h2, h2⟩
 
 /-! ### strptime pieces -/
 
